@@ -92,7 +92,7 @@ PROPS.update({
         proved=['fixed-width writer: exactly N bytes = text truncated to N then NUL padding (all N, all byte strings)',
                 'aligned writer: length = min(max, round_up(len, align)), multiple of the alignment, never above the maximum',
                 'decoding stops at the first NUL; strip idempotent; written text shorter than the width is read back',
-                'terminating NUL: proved outside the known class (text shorter than the width / length not a multiple of 4), refuted inside it with machine-checked witnesses (c11_fixed_terminator_refuted, c11_aligned_terminator_refuted)'],
+                'terminating NUL: the four free-text packets sent to LFS (MST, MSX, MSL, MTC) use the NUL-terminated writer (checked on the regenerated layouts) and that writer ends in NUL for EVERY text, at exact width / multiple of 4 / never above the maximum (c11_terminated_fixed, c11_terminated_aligned); the plain writer terminates iff the text is shorter than the field (kept with witnesses: the defect repaired by 62eca23)'],
         modelled=WIRE_MODELLED + ['which writer each text field uses, with which width, is regenerated from the source (AText n / TTextEof max align in Gen/Packets.v)']),
 })
 LEVEL_TEXT.update({
